@@ -60,7 +60,10 @@
 //   - Reassembly (5), fast mode: claimed only when the true offset is the strict
 //     maximiser of the harness's own 4-mer diagonal score (absolute: number of
 //     shared 4-mers on the diagonal; relative: that number divided by the number
-//     of 4-mers of the diagonal's overlap) with at least one shared 4-mer, and,
+//     of 4-mers of the diagonal's overlap — under both readings of "overlap" for
+//     a diagonal on which one read ends inside the other: shared columns, or
+//     distance from the offset to the read end as FastShiftFourMer computes it;
+//     the documentation defines neither) with at least one shared 4-mer, and,
 //     when the geometry puts a penalised overhang on the scheme selected by the
 //     offset (left for offset > 0, right for offset < 0, either for offset 0),
 //     additionally only when the independent DP for that scheme has the true
@@ -78,7 +81,6 @@ import (
 	"testing"
 
 	"git.metabarcoding.org/obitools/obitools4/obitools4/pkg/obialign"
-	"git.metabarcoding.org/obitools/obitools4/obitools4/pkg/obikmer"
 	"git.metabarcoding.org/obitools/obitools4/obitools4/pkg/obiseq"
 	"git.metabarcoding.org/obitools/obitools4/obitools4/pkg/obitools/obipairing"
 	"pgregory.net/rapid"
@@ -309,25 +311,45 @@ func truePath(c pairCase) []int {
 }
 
 // strictMaxDiagonal: is offset s the strict maximiser of the 4-mer diagonal score?
+// Absolute score: number of shared 4-mers on the diagonal.  Relative score: that
+// number divided by the number of 4-mers of the diagonal's overlap; the
+// documentation does not say what the overlap of a diagonal is when one read
+// ends inside the other (columns really shared, or distance from the offset to
+// the end of the read, which is what FastShiftFourMer uses), so the offset has to
+// win under both readings.
 func strictMaxDiagonal(a, b string, s int, rel bool) bool {
 	diag := ref.FourMerDiagonals(a, b)
-	score := func(d, n int) float64 {
-		if !rel {
-			return float64(n)
-		}
-		return float64(n) / float64(ref.DiagonalOverlap(len(a), len(b), d)-3)
-	}
 	n := diag[s]
 	if n == 0 {
 		return false
 	}
-	best := score(s, n)
-	for d, k := range diag {
-		if d != s && score(d, k) >= best {
-			return false
+	la, lb := len(a), len(b)
+	shared := func(d int) int { return ref.DiagonalOverlap(la, lb, d) }
+	toEnd := func(d int) int {
+		switch {
+		case d > 0:
+			return la - d
+		case d < 0:
+			return lb + d
 		}
+		return min(la, lb)
 	}
-	return true
+	wins := func(over func(d int) int) bool {
+		score := func(d, n int) float64 {
+			if !rel {
+				return float64(n)
+			}
+			return float64(n) / float64(over(d)-3)
+		}
+		best := score(s, n)
+		for d, k := range diag {
+			if d != s && score(d, k) >= best {
+				return false
+			}
+		}
+		return true
+	}
+	return wins(shared) && (!rel || wins(toEnd))
 }
 
 // judge applies oracles (1)-(5) to one answer of the real code.
@@ -608,14 +630,6 @@ func checkArena(ac arenaCase) error {
 	return nil
 }
 
-// f10Present probes whether obikmer.Encode4mer still panics on a read of
-// length 3 (defect F10, owned by property C19).  While it does, reads of
-// length 3 are kept out of the fast path by construction.
-var f10Present = func() bool {
-	out := fatal.Run(func() { obikmer.Encode4mer(obiseq.NewBioSequence("x", []byte("acg"), ""), nil) })
-	return !out.Completed
-}()
-
 // ------------------------------------------------------------------ classes
 
 func classesOf(c pairCase) (cl []string) {
@@ -769,10 +783,13 @@ func claimProbe(c pairCase) string {
 		}
 	}
 	finite := tableFinite || !(hasZero(c.QA) && hasZero(c.QB))
-	ok, _ := reassemblyClaimed(c, colScore, gapPen, finite, optimum, &optL, &optR, &nL, &nR)
+	ok, why := reassemblyClaimed(c, colScore, gapPen, finite, optimum, &optL, &optR, &nL, &nR)
 	mode := "exact"
 	if c.Fast {
 		mode = "fast"
+	}
+	if ok && c.Fast && strings.Contains(why, "scheme") {
+		return "reassembly_claimed:fast_with_penalised_overhang"
 	}
 	if ok {
 		return "reassembly_claimed:" + mode
@@ -841,7 +858,6 @@ func TestExhaustiveTiny(t *testing.T) {
 	}
 	strs := allStrings(alphabet, 5)
 	shard, n := evid.Shard(), evid.NShards()
-	var excluded int64
 	for i, a := range strs {
 		if i%n != shard {
 			continue
@@ -857,10 +873,6 @@ func TestExhaustiveTiny(t *testing.T) {
 					for k := range b {
 						c.QB = append(c.QB, []int{30, 40 - 30*(k%2)}[qp])
 					}
-					if c.Fast && f10Present && (len(a) == 3 || len(b) == 3) {
-						excluded++
-						continue
-					}
 					evid.Eval("pair", evid.Hash(fmt.Sprintf("%+v", c)), len(a) >= 4 && len(b) >= 4, c, "tiny_exhaustive")
 					if err := checkPair(c); err != nil {
 						evid.Fail(t, "pair", c, err)
@@ -869,10 +881,5 @@ func TestExhaustiveTiny(t *testing.T) {
 			}
 		}
 	}
-	if excluded > 0 {
-		evid.Excluded("F10_encode4mer_length3", excluded)
-	}
-	if excluded == 0 {
-		evid.Exhaustive(fmt.Sprintf("all ordered pairs of reads over {%s} of length 1..5 x {exact, fast relative, fast absolute} x 2 quality/settings patterns", alphabet))
-	}
+	evid.Exhaustive(fmt.Sprintf("all ordered pairs of reads over {%s} of length 1..5 x {exact, fast relative, fast absolute} x 2 quality/settings patterns", alphabet))
 }
